@@ -14,7 +14,7 @@ import z3
 import vcommon as V
 from vcommon import log
 import native as N
-import mir, sym, opkernels as K, opcheck as Q, builtinkernels as B, strkernels as S
+import mir, sym, opkernels as K, opcheck as Q, builtinkernels as B, strkernels as S, strindexkernels as X
 
 
 def string_summaries(sk, tier, disp=None):
@@ -207,6 +207,20 @@ def check(scratch, nat, a, t0):
             if not hasattr(f, "summ_uninterpreted"):
                 f.summ_uninterpreted = False
         log("  [%s] string methods: %d summaries, %d validation vectors agree" % (profile, len(ssum), n2))
+        # string indexing by character (`s[k]`, instruction vec_op) on text of every UTF-8 width class
+        xk = X.StrIndexKernels(bk.mf, oc, scratch.repo, seed=V.seed())
+        info["functions"][profile].update(xk.encoded_functions())
+        xsum = [xk.summarize(ws, k) for ws, k in X.shapes(a.tier)]
+        n3, mism3 = X.validate(xsum, nat.eval, release)
+        info["validation_vectors"][profile + ":string-indexing"] = n3
+        if mism3:
+            for m in mism3[:10]:
+                log("  TRANSLATOR MISMATCH", m)
+            raise V.Inconclusive("engine B disagrees with the real string indexing on %d of %d vectors (%s), first: %r" % (len(mism3), n3, profile, mism3[0]))
+        info["paths"][profile] += sum(len(s_.paths) for s_ in xsum)
+        for s_ in xsum:
+            pf += X.check_summary(s_, profile, qs, timeout_ms, V.seed(), "C14")
+        log("  [%s] string indexing: %d summaries, %d validation vectors agree" % (profile, len(xsum), n3))
         confirm(pf, nat, release)
         findings += pf
         log("  [%s] %d obligations so far, %d candidate findings" % (profile, qs.obligations, len(pf)))
@@ -316,15 +330,15 @@ def report(a, findings, qs, info, t0):
         "trusted_base": ["rustc MIR dump of `bytecode` (both overflow profiles)",
                          "mirsym interpreter, validated on this run against the real BuiltInFunction::run on %s boundary vectors" % info["validation_vectors"],
                          "std models: " + ", ".join(sorted(set(sum(info["models"].values(), [])))),
-                         "f64::powi / f64::powf are uninterpreted functions", "oracle: /verif/mirsym/builtinkernels.py oracle(), /verif/mirsym/strkernels.py oracle()"],
+                         "f64::powi / f64::powf are uninterpreted functions", "oracle: /verif/mirsym/builtinkernels.py oracle(), /verif/mirsym/strkernels.py oracle(), /verif/mirsym/strindexkernels.py (k-th character)"],
         "functions_encoded": info["functions"], "paths": info["paths"],
-        "bounds": "numeric methods to_int,to_bigint,to_byte,to_float,abs,sqrt,pow,powf,fpart,ipart,round,floor,ceil: every numeric receiver kind, full-width symbolic payload; pow: exponents 0..%d exact + all negative exponents, larger exponents outside the claim. String methods len,substring,delete,insert,split,reverse: receiver length 0..%d, inserted text length 0..%d, every character symbolic in 0x20..0x7E (multi-byte text outside the claim), every index a full-width symbolic i32; contains/index_of/replace/chars/repetition/concatenation and string indexing outside" % (B.POW_EXPONENTS[-1], S.LMAX.get(a.tier, 3), S.IMAX.get(a.tier, 2)),
+        "bounds": "numeric methods to_int,to_bigint,to_byte,to_float,abs,sqrt,pow,powf,fpart,ipart,round,floor,ceil: every numeric receiver kind, full-width symbolic payload; pow: exponents 0..%d exact + all negative exponents, larger exponents outside the claim. String methods len,substring,delete,insert,split,reverse: receiver length 0..%d, inserted text length 0..%d, every character symbolic in 0x20..0x7E (multi-byte text outside the claim), every index a full-width symbolic i32. String indexing s[k] (instruction vec_op with a literal index): strings of 0..%d characters, every character symbolic over its whole UTF-8 width class, all 4^n class combinations, every k in 0..n+1; variable indices, contains/index_of/replace/chars/repetition/concatenation outside" % (B.POW_EXPONENTS[-1], S.LMAX.get(a.tier, 3), S.IMAX.get(a.tier, 2), X.NMAX.get(a.tier, 3)),
         "solver_time_s": round(qs.solver_s, 2),
         "samples": qs.samples[:8] + [f.as_dict() for f in (new + listed)[:6]],
         "known_findings_reported": len(seen), "new_violations": len(new),
     }
     V.write_evidence("C14", a.tier, "proof", coverage,
-                     ["numeric methods and the index-arithmetic string methods; the remaining string methods (pattern search, chars, repetition, concatenation, indexing) and multi-byte text are outside this claim (see DESIGN.md)"], time.time() - t0, len(new))
+                     ["numeric methods, the index-arithmetic string methods (ASCII text) and string indexing by a literal index (all of Unicode); the remaining string methods (pattern search, chars, repetition, concatenation) and multi-byte text for the index-arithmetic methods are outside this claim (see DESIGN.md)"], time.time() - t0, len(new))
     log("C14: %d obligations, %d discharged, %d known keys, %d new, %d non-reproducing, %.1fs" % (qs.obligations, qs.discharged, len(seen), len(new), len(bad), time.time() - t0))
     return code
 
